@@ -27,6 +27,10 @@ CLAIMED = {
    text="43 functions behind the collection builtins carry functional post-conditions taken from the statement, README and step files (result kind, length, element-wise or key-wise content, error outside the domain): count, empty?, first, rest, nth, cons, vec, take, take-last, drop, drop-last, subvec, range, get, contains?, keys, vals, assoc, dissoc, conj, merge, concat (0-2 arguments functionally, any count for kind/freshness), seq, hash-map/NewHashMap, set/NewSet, rename-keys, copy helpers and the predicates' helpers are proved for all arguments with quantified loop invariants; apply, map, get-in, assoc-in, update, update-in have thin contracts (kinds, nil cases, error cases) only and are not claimed functionally.",
    note="Normal returns only: a Go panic inside a builtin becomes a lisp error through the binder's wrapper (C04/C20). NewHashMap's value clause is 'some pair with that key' (last-wins proved for assoc/conj only). The anonymous one-line closures registered in Load (list, vector, hash-set, predicates) are covered through the helpers they call, not individually. Callback builtins (map, apply, update*) are thin.",
    tech=TECH + "; functional post-conditions with quantified invariants, visited-set and visited-count ghosts for map ranges, finite-map cardinality lemma"),
+ "C20": dict(level="proof", ref="DESIGN.md §4 C20",
+   text="Over an abstract reflect (signature facts uninterpreted; Value.Call panics unless the arguments are assignable, else counts one invocation in a ghost counter): _args/_args_ctx panic iff the lisp argument count is outside the window and otherwise build exactly the boxed arguments in order (context first); each of the six wrapper closures never panics, invokes the Go function exactly once iff the count is in the window and reflect accepts the arguments, and otherwise returns a non-nil error; results are mapped by _nil_nil/_nil_error/_result_error as the convention says; at the registration site the accepted window is proved equal to the declared pair or the signature-derived bounds counted in lisp arguments; registration itself can only panic through its explicit validation panics.",
+   note="reflect, runtime.FuncForPC().Name() ('pkgpath.func' contains a dot) and fmt/strings calls are stubs; the hyphenated lower-case name derivation and the %w wrapping of a recovered error payload inside fmt.Errorf are not verified; that a wrapper passes _args' result unchanged to Value.Call is visible in the one-line closure bodies, not a separate obligation; nil arguments boxed as the zero MalType is proved only as 'non-nil arguments are boxed by ValueOf'.",
+   tech=TECH + "; panics-iff contracts, ghost invocation counter, assert-at obligations at the registration site, panic/recover paths modelled for the deferred _recover"),
 }
 
 NA_REASON_WIP = ("check under construction (the contract-based VC engine exists; this property's contracts are not wired yet): "
